@@ -14,7 +14,7 @@ CHECKS = {
  "C15": dict(text="Lean theorems for all byte strings and lengths: parse never reads outside [0,len) (checked-memory model), is total and terminating (well-founded definitions), find_request_len = first CRLFCRLF + 4 or -1, round trip of every well-formed request (decidable WellFormed, each conjunct shown necessary), path = normalize(target up to '?') against an independent functional spec; correspondence against the real functions on exactly-sized heap blocks under ASan",
              note=TB + "std::string/std::map as lists; C locale; len >= 0", ref="§5 C15",
              tech="Lean 4 proof: checked-memory model, round-trip and in-bounds theorems; differential correspondence"),
- "C19": dict(text="Lean round-trip theorem decodeFile(capture sends) = expected sends for an independent decoder (one record per send, lengths, addresses, ports, payload, timestamps from the epoch, monotone, TCP seq = bytes sent before starting at 0), for all sends that fit one IPv4 packet; byte-exact correspondence with the real sim::aux::pcap",
+ "C19": dict(text="Lean round-trip theorem decodeFile(capture sends) = expected sends for an independent decoder (one record per send, lengths, addresses, ports, payload, timestamps from the epoch, monotone, TCP seq = bytes sent before starting at 0), for all sends that fit one IPv4 packet; byte-exact correspondence with the real sim::aux::pcap per record (stage 1) and of whole capture files of generated TCP/UDP simulations predicted by the Lean world model (stage 2), re-read by an independent parser and compared with the first-hop probes' view of every send",
              note=TB + "fstream flush trusted; which sends reach the capture (call sites in send_packet/send_to_impl) is validated by simulation-level scenarios, not proved", ref="§5 C19",
              tech="Lean 4 proof: encoder/decoder round trip; byte-exact differential correspondence"),
 }
@@ -23,6 +23,12 @@ NA = {}
 CHECKS["C09"] = dict(text="Lean theorems over every well-timed history of the open queue system (arbitrary arrivals incl. re-entrant ones, callback instants constrained only by what C02/C03 guarantee): FIFO, stamp = arrival + latency, departure recurrence leave = max(prev, arrive+latency) + ser(size) (bandwidth 0: +0), prev chain, minimum crossing time, monotone departures, rate bound between consecutive departures, work conservation (a backlogged queue always has its next callback pending); exact correspondence of the composed kernel+queue model with real sim::queue objects between probes; recurrence re-checked with exact rationals (+-1 ns) on implementation traces",
     note=TB + "serialisation time abstract (ser >= 0) in the theorems; the code's double rounding is validated numerically, not proved; route-level lower bounds are corollaries per hop and are not separately stated for TCP/UDP end-to-end delays", ref="§5 C09",
     tech="Lean 4 proof: open-system invariant (assume-guarantee on C02/C03); model/implementation correspondence")
+CHECKS["C14"] = dict(text="Lean theorems over every well-timed history of the open resolver system (arbitrary sequences of literal / host-name lookups with arbitrary configuration answers and latencies, cancel(), re-entrant calls from inside lookup handlers): every lookup completes exactly once (permutation of requests = completions + queue), results are exactly the configuration's error and addresses in order with the numeric port, host-name lookups complete in request order at a scheduled instant within [nominal, nominal + slack] where nominal = max(request, previous nominal) + latency, literals on schedule without consulting the configuration, cancel() aborts every queued lookup exactly once and none completes afterwards; exact correspondence of the composed kernel+resolver model with real tcp/udp resolvers; statement re-evaluated on implementation traces",
+    note=TB + "the '1 microsecond' clauses hold in the form proved (C14_serial_timing / C14_literal_fast): chains of address literals requested within a microsecond of each other add up, on the model and on the implementation alike (C14_literal_chain_corner); recorded in DESIGN.md", ref="§5 C14",
+    tech="Lean 4 proof: open-system invariant over resolver histories incl. re-entrancy; model/implementation correspondence")
+CHECKS["C01"] = dict(text="the Lean world model (kernel + queues + sockets + resolver + capture) is a pure function of the scenario with no environment input; theorems state that the kernel has no scheduling choice points (FIFO, expiry-then-arming order), that a new simulation's clock is reset, and that the capture does not depend on allocator contents once the byte counters are initialised (with the pinned tree's dependence as a witness); every generated program is executed by the real library under several perturbed environments (allocator fill 0x00/0xbe/0x55, sanitizer vs -O2 build, tcache off, ASLR off, another simulation run first in the same process) and every complete trace, capture bytes included, must equal the environment-free prediction byte for byte",
+    note=TB + "PARTIAL by nature: Lean proves the identified environment inputs do not reach the model's observables; dependences not identified by reading (inside boost, pointer comparisons in unmodelled paths) can only be exhibited by the perturbed runs, which sample", ref="§5 C01",
+    tech="Lean 4 proof (determinism of the model, non-interference of identified environment inputs) + exact model/implementation correspondence under perturbed environments")
 CHECKS["C10"] = dict(text="Lean theorems: byte account = sum of queued sizes = accepted - forwarded; drop iff droppable and capacity>0 and held+size>capacity (mechanism function and logged flag for every arrival of every history); control packets and capacity 0 never drop; conservation (every arrival forwarded xor dropped xor still queued, FIFO identity); drop callback exactly once, at the drop instant, with the packet intact; correspondence and trace-level statement as C09",
     note=TB + "'intact' covers payload size/type/sequence/overhead (the callback member itself is moved out by design)", ref="§5 C10",
     tech="Lean 4 proof: open-system invariant; model/implementation correspondence")
